@@ -5,6 +5,7 @@ package main
 
 import (
 	"fmt"
+	"github.com/gofiber/fiber/v3/verifrt"
 	"os"
 	"sort"
 	"strings"
@@ -140,6 +141,7 @@ func families(quick bool) []family {
 }
 
 func main() {
+	verifrt.NoDaemonsOutsideRun = true // the built-in store's janitor only runs inside executions (harness B)
 	r := core.Start("C13")
 	depth := 5
 	alpha := alphabet(false)
